@@ -243,10 +243,12 @@ def _strnum_chunk(strs):
     for t in strs:
         x = CORE_.StringToNumber(t)
         exp = "|".join(CORE_.ToString(v) for v in (x, OPS_.num_rem(x, 2), OPS_.op_add(OPS_.op_sub(x, 1), 2), OPS_.op_neg(x) if hasattr(OPS_, "op_neg") else -x,
-                                                     OPS_.op_mul(x, 1), OPS_.op_sub(x, 0), OPS_.op_div(x, 1), x))
+                                                     OPS_.op_mul(x, 1), OPS_.op_sub(x, 0), OPS_.op_div(x, 1), x,
+                                                     # the sign of a zero shows only through division
+                                                     OPS_.op_div(1, x), OPS_.op_div(1, OPS_.op_mul(x, 1)), OPS_.op_div(1, OPS_.num_rem(x, 5)), OPS_.op_div(1, OPS_.op_neg(x) if hasattr(OPS_, "op_neg") else -x)))
         import json as _j
         q = _j.dumps(t)
-        src = (f"var s = {q}; [String(+s), String((+s) % 2), String((+s) - 1 + 2), String(-(+s)), String(s * 1), String(s - 0), String(s / 1), String(Number(s))].join('|')"
+        src = (f"var s = {q}; [String(+s), String((+s) % 2), String((+s) - 1 + 2), String(-(+s)), String(s * 1), String(s - 0), String(s / 1), String(Number(s)), String(1 / +s), String(1 / (s * 1)), String(1 / (s % 5)), String(1 / -s)].join('|')"
                f" + '|' + (s == +s) + (+s === Number(s)) + ((+s) + 0 === +s)")
         try:
             got = c.eval(src)
@@ -275,12 +277,13 @@ def c06_strnum(tier="quick", seed=0):
     strs = []
     for t in sorted(base):
         strs += [t, "-" + t, "+" + t, " " + t + "\n", t + ".0", t + ".5", t + "e0", t[:-1] + "." + t[-1] + "e1", "0x" + hex(int(t))[2:] if len(t) < 18 else t + "e-1"]
-    strs += ["9007199254740993", "9007199254740995", "9999999999999999", "0.1", "1e309", "-1e309", "1e-400", "4.35", "0.000001", "123456789012345680000", "1e21", "1e+21", ".5", "5.", "", " ", "0x", "1e", "--1", "Infinity", "-Infinity", "infinity"]
+    strs += ["9007199254740993", "9007199254740995", "9999999999999999", "0.1", "1e309", "-1e309", "1e-400", "4.35", "0.000001", "123456789012345680000", "1e21", "1e+21", ".5", "5.", "", " ", "0x", "1e", "--1", "Infinity", "-Infinity", "infinity",
+             "-0", "+0", "0", "-0.0", "-00", " -0 ", "-0e5", "-.0", "-0.", "-0x0", "-0e-400", "-1e-400", "+1e-400", "-5", "5", "-10", "-2.5", "\t-0\n", "-0000000000000000", "-000000000000000000000"]
     chunks = [strs[i::16] for i in range(16)]
     with mp.get_context("fork").Pool(16) as pool:
         rs = pool.map(_strnum_chunk, chunks)
     bad = [b for _, bs in rs for b in bs]
-    return [ob("C06.bounded.string-to-number", not bad, "B", f"{len(strs)} numeric strings through 11 observations" if not bad else f"{bad[0][0]!r}: engine {bad[0][2]!r} expected {bad[0][3]!r}",
+    return [ob("C06.bounded.string-to-number", not bad, "B", f"{len(strs)} numeric strings through 15 observations" if not bad else f"{bad[0][0]!r}: engine {bad[0][2]!r} expected {bad[0][3]!r}",
                witness=(bad[0][1] if bad else None), confirmed=True if bad else None, domain=len(strs))]
 
 
